@@ -147,6 +147,7 @@ class SymList:
                 out.append(self.line_item(e, "lit"))
             return out
         if isinstance(node, ast.ListComp) and len(node.generators) == 1 and not node.generators[0].ifs:
+            node = self._fuse(node)
             g = node.generators[0]
             it = self.line_item(node.elt, "fam")
             self.family_range(it, g)
@@ -184,6 +185,54 @@ class SymList:
             ast.copy_location(lc, node)
             return self.make_items(lc)
         raise AnalysisError("unrecognised list expression %s" % ast.unparse(node)[:80])
+
+    def _fuse(self, comp):
+        """[OUTER(v) for v in NAMES] with NAMES = a helper returning / a comprehension [INNER(i) for i in range(..)]
+        -> [OUTER(INNER(i)) for i in range(..)].  `sorted(...)` around names that carry the running number as plain
+        digits is reported: text order is not numeric order from 10 items on."""
+        from .normalize import _subst
+        g = comp.generators[0]
+        if not isinstance(g.target, ast.Name):
+            return comp
+        itn = g.iter
+        was_sorted = None
+        for _h in range(4):
+            if isinstance(itn, ast.Call) and isinstance(itn.func, ast.Name) and itn.func.id == "sorted" and len(itn.args) == 1 and not itn.keywords:
+                was_sorted = itn
+                itn = itn.args[0]
+            elif isinstance(itn, ast.Call) and isinstance(itn.func, ast.Name) and itn.func.id in ("list", "tuple") and len(itn.args) == 1:
+                itn = itn.args[0]
+            elif isinstance(itn, ast.Call):
+                # a helper of the package whose body is `return E`
+                try:
+                    tg = self.ctx.cg.resolve_callee(self.f, itn.func)
+                except Exception:
+                    tg = []
+                fn = self.ctx.cg.func(tg[0]) if len(tg) == 1 else None
+                body = [st for st in fn.node.body if not (isinstance(st, ast.Expr) and isinstance(st.value, ast.Constant))] if fn is not None else []
+                if fn is None or len(body) != 1 or not isinstance(body[0], ast.Return) or body[0].value is None or itn.keywords \
+                        or len(itn.args) != len(fn.params):
+                    return comp
+                itn = _subst(body[0].value, dict(zip(fn.params, itn.args)))
+            else:
+                break
+        if not (isinstance(itn, (ast.GeneratorExp, ast.ListComp)) and len(itn.generators) == 1 and not itn.generators[0].ifs
+                and isinstance(itn.generators[0].target, ast.Name)):
+            return comp
+        inner = itn.generators[0]
+        if was_sorted is not None:
+            tpl, args = self.format_of(itn.elt)
+            numbered = any(isinstance(a, ast.Name) and a.id == inner.target.id for a in args) and "{" in tpl
+            padded = any(":0" in f for f in tpl.split("{")[1:])
+            if numbered and not padded:
+                raise ReadableWrong("the names %s are put in order with sorted(): as text, `_10` comes before `_2`, so from ten items on the k-th line does not carry the k-th name"
+                                    % tpl[:30], was_sorted, "names generated in numeric order (the range itself), or zero-padded")
+        fused = ast.ListComp(elt=_subst(comp.elt, {g.target.id: itn.elt}), generators=[inner])
+        ast.copy_location(fused, comp)
+        for sub in ast.walk(fused):
+            if not hasattr(sub, "lineno"):
+                ast.copy_location(sub, comp)
+        return fused
 
     def family_range(self, it, g):
         t = g.target
